@@ -5,7 +5,7 @@
  "enforce": ["b64encode"],
  "replace": [],
  "annotate": ["util/b64encode.c"],
- "defines": ["VERIF_HALLOC", "B64_MAX=6"],
+ "defines": ["VERIF_HALLOC"],
  "thorough_defines": ["B64_MAX=48"],
  "pre_unwindset": ["b64encode.0:4", "b64encode.1:5"],
  "instrument_flags": ["--nondet-static-exclude", "b64chars"],
